@@ -3,7 +3,7 @@
    flate.Reader to, on every run, and what compress/flate and zlib are
    compared with. Theorems here: the decoder's verdict and output are a
    function of the bits it consumed only. *)
-From V Require Import Base.Prelude Base.Prog Base.ProgThms Flate.Spec Flate.Thms.
+From V Require Import Base.Prelude Base.Prog Base.ProgThms Flate.Spec Flate.Thms Flate.Safe Flate.Fuel.
 
 (* the decoder cannot look at its source except bit by bit, in order *)
 Theorem flate_decoder_is_local : forall d, eof_free (inflate_prog d).
@@ -29,3 +29,16 @@ Theorem flate_cut_never_misread : forall d input cut rest,
   prefix_of (res_out (inflate_d d cut)) (res_out (inflate_d d input)).
 Proof. exact inflate_truncated. Qed.
 Print Assumptions flate_cut_never_misread.
+
+(* TOTALITY of the RFC 1951 decoder model: on EVERY input the decoder, with the loop budget
+   [inflate] itself chooses, ends in success, UnexpectedEOF or Corrupted - never in a panic
+   (window copy out of range), never with its loop budget exhausted (every continuing loop
+   iteration consumes an input bit; complete codes have no zero length, so no decoding tree
+   is a bare leaf), never with Invalid/Internal. *)
+Theorem flate_decoder_total : forall input,
+  match ir_err (inflate input) with
+  | None => True
+  | Some e => e = EUEOF \/ e = ECorrupted
+  end.
+Proof. exact inflate_total. Qed.
+Print Assumptions flate_decoder_total.
